@@ -604,7 +604,13 @@ def replay(doc):
     from props import c07_more
     d = doc['detail']
     part = d.get('part')
-    if part == 'air':
+    if part == 'air' and d.get('sender') == 'legal':
+        s, ctx, net, obs = air_conversation(None, d['client'], d['size'],
+                                            d['miu'], d['did'])
+        bad = judge_stack(s, ctx, obs)
+        if not bad and (obs['client'] != ('ret', True) or obs['put'] != [1]):
+            bad = [('not-delivered', {})]
+    elif part == 'air':
         new = bytes.fromhex(d['frame'])
 
         def mutate(snd, idx, frame):
